@@ -794,6 +794,45 @@ func TestShapes(t *testing.T) {
 	}
 }
 
+// TestScopeTwins: scopes naming entity uids that coincide when type and id are glued together without quoting
+// (`Org::Team::"alice"` / `Org::"Team::alice"`, `A::"bc"` / `Ab::"c"`), in one policy and across the policies decoded
+// one after the other by this process: anything keyed by such a concatenation hands one uid out for the other.
+func TestScopeTwins(t *testing.T) {
+	if !ev.First() {
+		return
+	}
+	fail := tableFail(t)
+	worlds := gen.FixedWorlds()[:2]
+	pairs := [][2]ir.Value{
+		{ir.Ent("Org::Team", "alice"), ir.Ent("Org", "Team::alice")},
+		{ir.Ent("A", "bc"), ir.Ent("Ab", "c")},
+		{ir.Ent("T::U", ""), ir.Ent("T", "U::")},
+		{ir.Ent("Action", "a::b"), ir.Ent("Action::a", "b")},
+	}
+	count := 0
+	for _, pr := range pairs {
+		for _, ord := range [][2]int{{0, 1}, {1, 0}} {
+			a, b := pr[ord[0]], pr[ord[1]]
+			forms := []func(p *ir.Policy){
+				func(p *ir.Policy) { p.Principal, p.Resource = ir.ScopeEq(a), ir.ScopeEq(b) },
+				func(p *ir.Policy) { p.Principal, p.Resource = ir.ScopeIn(a), ir.ScopeIn(b) },
+				func(p *ir.Policy) { p.Principal, p.Resource = ir.ScopeIsIn("T0", a), ir.ScopeIsIn("T0", b) },
+				func(p *ir.Policy) { p.Action = ir.ScopeInSet([]ir.Value{a, b}) },
+				func(p *ir.Policy) { p.Action, p.Resource = ir.ScopeEq(a), ir.ScopeEq(b) },
+				func(p *ir.Policy) { p.Principal = ir.ScopeEq(a) },
+				func(p *ir.Policy) { p.Principal = ir.ScopeEq(b) },
+			}
+			for _, f := range forms {
+				p := ir.NewPolicy(true)
+				f(p)
+				count++
+				run(&Case{Policy: p, Worlds: worlds}, "scope-twins", fail)
+			}
+		}
+	}
+	ev.R.Space("scope forms over uid pairs whose unquoted concatenations coincide, both orders", count)
+}
+
 // TestSetTable: policy sets with 0..8 ids including "" and non-ASCII ids.
 func TestSetTable(t *testing.T) {
 	if !ev.First() {
